@@ -40,7 +40,8 @@ def main():
             suffix = os.path.basename(patch)[len('patch'):-len('.diff')]
             demo = os.path.join(d, f'demo{suffix}.diff')
             meta = os.path.join(d, f'meta{suffix}.json')
-            name = f'{pid}{("-" + suffix) if suffix else ""}'
+            tag = os.environ.get('SEEDED_TAG', '')
+            name = f'{pid}{("-" + tag) if tag else ""}{("-" + suffix) if suffix else ""}'
             rec = {'patch': patch}
             sh(f'cd {WT} && git checkout -q --detach $(git -C /repo rev-parse HEAD)')
             clean(WT)
@@ -88,7 +89,7 @@ def main():
                     try: m = json.load(open(meta))
                     except Exception: m = {'raw': open(meta).read()}
                 m_out = {'property': pid, 'breaks': m.get('summary', ''), 'needs': m.get('needs', ''), 'files': m.get('files', []), 'demo_test': m.get('demo_test', ''),
-                         'origin': 'independent sub-agent given only the property text and a scratch worktree',
+                         'origin': 'independent sub-agent given only the property text and a scratch worktree' + (' (hard round: asked to evade randomized testers and small-scope explorers)' if os.environ.get('SEEDED_TAG') == 'hard' else ''),
                          'confirmed': {'repo_head': sh('git -C /repo rev-parse --short HEAD').stdout.strip(), 'demo_alone (passed, failed)': a[:2], 'patch_alone (passed, failed)': b[:2], 'patch_plus_demo (passed, failed)': c[:2],
                                        'how': 'scratch worktree outside /repo and /verif: git apply + cargo test --offline for each of the three combinations'},
                          'checks_run': rec.get('checks', {})}
